@@ -100,4 +100,10 @@ TEXTS = {
         "note": "trusted: Lean kernel + audited axioms; the placement of panic sites in the model (read from the source, kept in step by the correspondence streams); the dev profile's overflow checks; OverlayFS::new(&[]) is the documented panic",
         "technique": "Lean 4 proof (panic-freedom calculus) over hand-written model + catch_unwind exploration on the unrestricted domain",
     },
+    "C15": {
+        "level": "Lean 4 theorems: stuttering simulation between the async walk_dir stream (poll_next with its five fields and a pending oracle at every inner poll) and the sync iterator, for every tree, state and poll schedule: Pending polls are unobservable, Ready polls yield the sync iterator's next item, delivered items are always a prefix of the sync sequence and equal it once all futures complete, whatever the schedule; no item is lost when metadata is pending; the async in-memory read handle equals the sync read handle call by call. PARTIAL: the async filesystems themselves (memory, physical, altroot, overlay ports) are decided by the async stream — the same script on the sync and async twins of 9 configurations under three executors with injected Pending at every await point, comparing outcomes, snapshots, walk items and read-handle results.",
+        "design_ref": "DESIGN.md §6 C15",
+        "note": "trusted: Lean kernel + audited axioms (decide +kernel in examples); the model of poll_next (read from src/async_vfs/path.rs, re-checked against the source by an independent pass); executors and async-std types; the async ports have no Lean model",
+        "technique": "Lean 4 proof (stuttering simulation, schedule independence) + differential test sync vs async under injected Pending",
+    },
 }
